@@ -490,6 +490,9 @@ Inductive op :=
 | ODies (t : tid)
 | OFail (ids : list tid)    (* the executor (or the agent) running exactly these tasks failed *)
 | ORefuse (ids : list tid)  (* from now on the master refuses the KILL calls for these tasks *)
+| ORelock (t : tid)         (* the executor of a task that had been reported failed sends TASK_RUNNING for it *)
+| ONop                      (* a request that is still waiting (its effect comes later) / the end of a held request *)
+| OCleanupStale (ids : list tid)  (* a Cleanup that waited acts on the list of unlocked tasks it computed before *)
 | ORecon.                   (* the master answers a reconciliation: TASK_RUNNING, agent id, no executor id, for every running task *)
 
 Definition step (s : st) (o : op) : st * out :=
@@ -509,6 +512,10 @@ Definition step (s : st) (o : op) : st * out :=
   | ODies t => (with_roster s (task_dies t (s_roster s)), out_rc 0)
   | OFail ids => (with_roster s (fail_tasks ids (s_roster s)), out_rc 0)
   | ORefuse ids => (with_roster s (refuse_tasks ids (s_roster s)), out_rc 0)
+  | ORelock t => (with_roster s (relock_task t (s_roster s)), out_rc 0)
+  | ONop => (s, out_rc 0)
+  | OCleanupStale ids => let '(r', k) := stale_cleanup ids (s_roster s) in
+                         (with_roster s r', mkOut 0 k [] [] [] 0 [])
   | ORecon => (with_roster s (recon_tasks (s_roster s)), out_rc 0)
   end.
 
